@@ -56,7 +56,7 @@ def c07_rt(tier, seed):
 
 PROPS = {
     "C02": {
-        "modules": ["contracts.c02_paths"],
+        "modules": ["contracts.c02_paths", "contracts.server_units", "contracts.worker_units"],
         "level": "proof",
         "extra": ["contracts.index.c02_rt"],
         "trusted_base": [T_PY, T_ENGINE, T_SOLVER, T_PATH, T_CONN],
